@@ -26,6 +26,7 @@ DUNDERS = ('__getitem__', '__setitem__', '__delitem__', '__add__', '__radd__', '
            '__ior__', '__ixor__', '__contains__', '__eq__', '__ne__', '__hash__', '__len__', '__bool__', '__iter__', '__copy__', '__str__',
            '__repr__', '__bytes__', '__lt__', '__neg__', '__abs__', '__sub__', '__rsub__', '__truediv__', '__floordiv__', '__mod__', '__isub__',
            '__itruediv__', '__ifloordiv__', '__imod__', '__le__', '__gt__', '__ge__')
+LENGTH_CHANGERS = ('__setitem__', '__delitem__', '__iadd__', '__imul__', 'append', 'prepend', 'insert', 'overwrite', 'replace', 'clear', '__setitem__')
 TOKENS = ['uint:8', 'u5', 'int:7', 'hex:8', 'hex', 'bin:3', 'bin', 'oct:6', 'float:32', 'floatle:16', 'bool', 'bits:5', 'bits', 'bytes:1', 'bytes', 'pad:3',
           'ue', 'se', 'uie', 'sie', 'uintle:16', 'intbe:24', 'uintne:16', 'e4m3mxfp', 'e5m2mxfp', 'p4binary', 'p3binary', 'bfloat', 'e3m2mxfp',
           'e2m1mxfp', 'e8m0mxfp', 'mxint', '>H', '<hb', '=I', 'uint:n', 'int', 'uint', 'float', 'uint:0', 'uint:-1', 'foo', 'u', '2*u4', '3*(bin:1, pad:1)',
@@ -73,7 +74,7 @@ class EChaos(Engine):
                        'text_stream_fault_fired')
 
     def plan(self, tier, base_seed):
-        return self.seeded_plan(tier, base_seed, quick=(8000, 30), thorough=(800000, 50))
+        return self.seeded_plan(tier, base_seed, quick=(24000, 30), thorough=(1600000, 50))
 
     def config(self, g, desc):
         objs = []
@@ -250,8 +251,12 @@ class EChaos(Engine):
         n = len(x) if kernel.is_bits(x) else len(x.data)
         alen = call(len, x)
         alen = alen[1] if alen[0] == 'ok' else 0
+        if kind == 'call' and hasattr(x, '_pos') and g.chance(0.12):
+            return {'k': 'setprop', 'obj': i, 'name': 'pos', 'value': {'t': 'int', 'v': g.pick([n, n, n - 1, n - 7, n // 2])}}
         if kind == 'call':
             member = g.pick(self.members[cname])
+            if cname in ('BitArray', 'BitStream') and g.chance(0.3):
+                member = g.pick(LENGTH_CHANGERS)
             attr = inspect.getattr_static(type(x), member, None)
             fn = getattr(type(x), member, None)
             if isinstance(attr, property) or not callable(fn):
@@ -345,6 +350,12 @@ class EChaos(Engine):
             if cls in ('ConstBitStream', 'BitStream') and g.chance(0.3):
                 ev['pos'] = g.pick([0, 1, -1, 8, 100, -100])
             return ev
+        if kind == 'pack' and g.chance(0.35):
+            k_ = g.pick([1, 1, 2])
+            toks = [g.pick(['bits', 'bits', 'bits:' + str(g.pick([0, 1, 8, n]))]) for _ in range(k_)]
+            vals = [g.pick([{'t': 'obj', 'i': g.int(0, 3)}, {'t': 'obj', 'i': g.int(0, 3)}, {'t': 'self'}, {'t': 'str', 'v': g.pick(['0xff', '0b101', '0x0f0f', ''])},
+                            {'t': 'bits', 'form': g.pick(['Bits', 'ConstBitStream', 'BitArray']), 'bin': g.bits(g.pick([1, 8, 16]))}]) for _ in range(k_)]
+            return {'k': 'pack', 'fmt': ', '.join(toks), 'vals': vals, 'kw': {}, 'slot': g.int(0, 3)}
         if kind == 'pack':
             toks = [g.pick(TOKENS) for _ in range(g.int(0, 3))]
             vals = []
@@ -745,6 +756,15 @@ class EChaos(Engine):
             if st == 'ok':
                 if not kernel.is_bits(r) or len(r.bin) != len(r) or r.pos != 0:
                     incs.append(self.inc('pack|created-invalid-object', event=ev))
+                elif len(r) <= 4096:
+                    # the packed stream joins the world: mutating it later must not change anything it was packed from
+                    slot = int(ev.get('slot', 0)) % 4 if isinstance(ev.get('slot', 0), int) else 0
+                    if slot < len(self.objs) and not any(o is self.objs[slot] for o in []):
+                        self.objs[slot] = r
+                        self.snap[slot] = self._snapshot(r)
+                    elif len(self.objs) < 4:
+                        self.objs.append(r)
+                        self.snap.append(self._snapshot(r))
             return {'st': st, 'exc': kernel.exc_name(r) if st == 'exc' else None}, incs
         if k == 'dtype':
             used = []
